@@ -135,6 +135,28 @@ Definition pipeline (tc use_memo : bool) (P : wprog) (q : key) (e : list key) : 
 Definition pipe_eval (P : wprog) (D : graph) (C : ModelCircuit.circuit) : Qc :=
   ModelCircuit.c_eval ModelOracle.QcOps (wkey P D) C.
 
+(* SimpleDDNNFEvaluator's way: ONE compiled circuit for the unconditioned CNF; evidence and query are
+   imposed by setting the weight of the opposite literal to zero *)
+Definition wcond1 (w : nat -> bool -> Qc) (k : key) : nat -> bool -> Qc :=
+  match k with
+  | Some (Zpos p) => zero_lit Nat.eqb w (Pos.to_nat p) false
+  | Some (Zneg p) => zero_lit Nat.eqb w (Pos.to_nat p) true
+  | _ => w
+  end.
+Definition wcond (w : nat -> bool -> Qc) (ks : list key) : nat -> bool -> Qc := fold_left wcond1 ks w.
+(* a key that weights can express: TRUE or a literal of a variable 1..n (not FALSE) *)
+Definition lit_key (n : nat) (k : key) : bool :=
+  match k with Some z => Z.abs_nat z <=? n | None => false end.
+Definition pipe_wmc_w (P : wprog) (D : graph) (ks : list key) : Qc :=
+  ModelCircuit.wmc_cnf ModelOracle.QcOps (wcond (wkey P D) ks) (length D) (clark_cnf P D).
+Definition pipe_eval_w (P : wprog) (D : graph) (ks : list key) (C : ModelCircuit.circuit) : Qc :=
+  ModelCircuit.c_eval ModelOracle.QcOps (wcond (wkey P D) ks) C.
+Definition evaluator (tc use_memo : bool) (P : wprog) (q : key) (e : list key) (C : ModelCircuit.circuit) : option presult :=
+  match break_cycles_m tc use_memo (wp_graph P) (ai_of P) [q] e with
+  | Some (D, [kq], kes) => Some (normalize (pipe_eval_w P D (kq :: kes) C) (pipe_eval_w P D kes C))
+  | _ => None
+  end.
+
 (* ------------------------------------------------------------------ AD bookkeeping of the acyclic formula *)
 Fixpoint nodupb (l : list N) : bool :=
   match l with [] => true | x :: r => negb (existsb (N.eqb x) r) && nodupb r end.
